@@ -21,6 +21,7 @@ import (
 type targetPanic struct {
 	v  value
 	rt bool // raised by the engine as a Go run-time error (nil dereference, bounds, ...)
+	where string
 }
 
 func (p targetPanic) String() string {
